@@ -139,6 +139,14 @@ _FRESH: dict[Any, Any] = {}
 
 def fresh_value(method: str, conset: str, request: Any, parallel: bool) -> Any:
     key = (method, conset, repr(request), parallel)
+    if key not in _FRESH and method == "differential_evolution" and not isinstance(request[1], str):
+        # a batch request: the reference is assembled column by column from fresh SCALAR requests (so that the
+        # batch layout itself is not part of the oracle)
+        columns = [fresh_value(method, conset, (request[0], pt), False) for pt in request[1]]
+        if any(isinstance(c, tuple) for c in columns):
+            _FRESH[key] = next(c for c in columns if isinstance(c, tuple))
+        else:
+            _FRESH[key] = np.stack([np.asarray(c) for c in columns], axis=-1)
     if key not in _FRESH:
         stack = Stack(method, conset, False, False, parallel).run([request])
         _FRESH[key] = stack.answers[0] if stack.error is None and stack.answers else ("error", stack.error)
